@@ -562,6 +562,60 @@ fn shape(rec: &mut Rec, _ctx: &Ctx, idx: u64, rng: &mut ChaCha20Rng, global: &Mu
   }
 }
 
+/// the sharing polynomial under a hostile random source: runs of 1 .. 100 candidates that the
+/// field's rejection sampler refuses, in front of a coefficient. Degree must stay exactly t-1 and
+/// every non-constant coefficient non-zero (a low-degree polynomial gives the key to < t shares)
+fn hostile_source(rec: &mut Rec, ctx: &Ctx, idx: u64, rng: &mut ChaCha20Rng) {
+  use crate::prop::c06::{rejection_run, RecRng};
+  let t: u32 = rng.gen_range(2..=6);
+  let mut secret = [0u8; 24];
+  rng.fill(&mut secret[..16]);
+  let mut r = RecRng::new(case_rng(ctx, "hostile-source-stream", idx));
+  let len = *pick(rng, &[1usize, 5, 20, 21, 22, 23, 40, 64, 100]);
+  let first = rng.gen_range(0..(t as usize - 1));
+  rejection_run(&mut r, first, len);
+  rec.evals += 1;
+  rec.ev("hostile_source_sharings");
+  rec.case(&("hostile-source", t, first, len));
+  let ev = match star_sharks::Sharks(t).dealer_rng(&secret, &mut r) {
+    Ok(e) => e,
+    Err(_) => return,
+  };
+  let shares: Vec<star_sharks::Share> = ev.take(t as usize + 1).collect();
+  let of = |f: &star_sharks::Fp| -> BigUint {
+    use ff::PrimeField;
+    bf::from_le(f.to_repr().as_ref())
+  };
+  let pts: Vec<(BigUint, BigUint)> = shares.iter().map(|s| (of(&s.x), of(&s.y[0]))).collect();
+  let co = match bf::interpolate_coeffs(&pts[..t as usize]) {
+    Some(c) => c,
+    None => return,
+  };
+  let rp = json!({"t": t, "rejections_in_a_row": len, "before_coefficient_draw": first, "coefficients_low_first": co.iter().map(|c| c.to_string()).collect::<Vec<_>>() });
+  if bf::eval_low_first(&co, &pts[t as usize].0) != pts[t as usize].1 {
+    rec.violation("not-one-polynomial", "shares dealt under a hostile random source do not lie on one polynomial of degree t-1".into(), rp);
+    return;
+  }
+  for (d, c) in co.iter().enumerate().skip(1) {
+    rec.ev("coefficient_checked");
+    if c.is_zero() {
+      rec.violation(
+        if d == t as usize - 1 { "degree-too-low" } else { "zero-coefficient" },
+        format!("after {} refused candidates in a row the coefficient of x^{} is zero (threshold {})", len, d, t),
+        rp,
+      );
+      return;
+    }
+  }
+  // with a zero leading coefficient t-1 shares interpolate to the key: shown directly
+  if t >= 3 {
+    rec.ev("attacker_interpolation");
+    if bf::lagrange_at_zero(&pts[..t as usize - 1]) == Some(co[0].clone()) {
+      rec.violation("attacker-interpolation-succeeds", format!("t-1 = {} shares dealt under a hostile random source interpolate to the secret", t - 1), rp);
+    }
+  }
+}
+
 /// thresholds beyond every 8-bit boundary: t-1 (and 255, 256) honest distinct
 /// shares must not recover, and must not interpolate to the sharing key
 fn large_threshold(rec: &mut Rec, ctx: &Ctx, idx: u64, rng: &mut ChaCha20Rng) {
@@ -618,6 +672,7 @@ pub fn run(ctx: &Ctx) -> Rec {
   // share a measurement and differ in epoch or threshold only
   rec.merge(par_run(ctx, "shape", ctx.n(2400, 100_000), |rec, i, rng| shape(rec, ctx, i, rng, &global)));
   rec.merge(par_run(ctx, "large-threshold", ctx.n(6, 55), |rec, i, rng| large_threshold(rec, ctx, i, rng)));
+  rec.merge(par_run(ctx, "hostile-source", ctx.n(600, 30_000), |rec, i, rng| hostile_source(rec, ctx, i, rng)));
   rec.note("global_coefficient_set", json!(global.lock().unwrap().len()));
   // the coefficients are draws from a random source: over the thousands seen in a run
   // every one of the low 128 bit positions must have been observed both set and clear
